@@ -220,6 +220,16 @@ def doPlan (l : Line) : Option String := do
   let f ← l.bool? "fresh"; let d ← l.bool? "destroys"; let ip ← l.bool? "inplace"
   some s!"ok survives={if dataSurvivesPlanning f d ip then 1 else 0}"
 
+/-- `planreuse given=none|0|1 inplace=`: in-place-ness of the plan `pyfftw_call` executes -/
+def doPlanReuse (l : Line) : Option String := do
+  let g ← match l.get? "given" with
+    | some "none" => some none
+    | some "0" => some (some false)
+    | some "1" => some (some true)
+    | _ => none
+  let ip ← l.bool? "inplace"
+  some s!"ok executed={if executedPlanInPlace g ip then 1 else 0}"
+
 /-- `ctor kind=dft|ft fwdplus= hc= lastshift=`: constructor accepts / rejects -/
 def doCtor (l : Line) : Option String := do
   let k ← l.get? "kind"; let p ← l.bool? "fwdplus"; let hc ← l.bool? "hc"
@@ -239,6 +249,7 @@ def handle (l : Line) : Option String :=
   | "dftrange" => doDftRange l
   | "plan" => doPlan l
   | "ctor" => doCtor l
+  | "planreuse" => doPlanReuse l
   | "ft" => doFt l
   | "padmode" => doPad l
   | "ravel" => doRavel l
